@@ -7,3 +7,11 @@ import Rtsp.Props.C09
 #print axioms Rtsp.C09.Transports.unmarshal_marshal
 #print axioms Rtsp.C09.Session.unmarshal_marshal
 #print axioms Rtsp.C09.RtpInfo.unmarshal_marshal
+#print axioms Rtsp.C09.Range.unmarshal_marshal
+#print axioms Rtsp.C09.Range.npt_time_roundtrip
+#print axioms Rtsp.C09.Range.smpte_time_roundtrip
+#print axioms Rtsp.C09.Range.utc_time_roundtrip
+#print axioms Rtsp.C09.Authenticate.unmarshal_marshal
+#print axioms Rtsp.C09.Authorization.unmarshal_marshal
+#print axioms Rtsp.C09.Mikey.unmarshal_marshal
+#print axioms Rtsp.C09.KeyMgmt.unmarshal_marshal
